@@ -18,9 +18,31 @@ ERROR_CLASSES = {"MyError": MyError, "OtherError": OtherError}
 
 # ---------------------------------------------------------------- building
 
-def emit_ops(cb, ops, fresh=None):
-    """fresh: list receiving (prefix, name returned by cb.fresh_var_name) in call order."""
+def _as_text(e):
+    """str(e) if dagrt's own parser reads it back as the same expression, else None (the known holes of the
+    printer - see C19 - and anything a changed parser gets wrong fall back to passing the expression)."""
+    from dagrt.expression import parse
+    try:
+        s = str(e)
+        return s if parse(s) == e else None
+    except Exception:
+        return None
+
+
+def emit_ops(cb, ops, fresh=None, surface="expr"):
+    """fresh: list receiving (prefix, name returned by cb.fresh_var_name) in call order.
+    surface: how the builder is addressed - "expr" (pymbolic objects), "str" (strings wherever they read back
+    identically), "if3" / "if3str" (three-argument form of if_ for comparisons, operands as objects / strings)."""
     from pymbolic import var
+    from pymbolic.primitives import Comparison
+
+    def S(e):
+        if surface in ("str", "if3str"):
+            t = _as_text(e)
+            if t is not None:
+                return t
+        return e
+
     for op in ops:
         k = op[0]
         if k == "fresh":
@@ -33,20 +55,25 @@ def emit_ops(cb, ops, fresh=None):
             lhs = var(name)
             if sub:
                 lhs = lhs[T.to_pymbolic(sub[0])]
-            cb.assign(lhs, T.to_pymbolic(rhs),
-                      loops=[(l[0], T.to_pymbolic(l[1]), T.to_pymbolic(l[2])) for l in loops])
+            cb.assign(S(lhs), S(T.to_pymbolic(rhs)),
+                      loops=[(l[0], S(T.to_pymbolic(l[1])), S(T.to_pymbolic(l[2]))) for l in loops])
         elif k == "call":
             _, assignees, fname, args, kw = op
             expr = T.to_pymbolic(["call", fname, args, kw])
-            cb.assign(tuple(var(a) for a in assignees), expr)
+            cb.assign(tuple(S(var(a)) for a in assignees), S(expr))
         elif k == "if":
-            with cb.if_(T.to_pymbolic(op[1])):
-                emit_ops(cb, op[2], fresh)
+            cond = T.to_pymbolic(op[1])
+            if surface in ("if3", "if3str") and isinstance(cond, Comparison):
+                cm = cb.if_(S(cond.left), cond.operator, S(cond.right))
+            else:
+                cm = cb.if_(S(cond))
+            with cm:
+                emit_ops(cb, op[2], fresh, surface)
             if op[3]:
                 with cb.else_():
-                    emit_ops(cb, op[3], fresh)
+                    emit_ops(cb, op[3], fresh, surface)
         elif k == "yield":
-            cb.yield_state(T.to_pymbolic(op[1]), op[2], T.to_pymbolic(op[3]), op[4])
+            cb.yield_state(S(T.to_pymbolic(op[1])), op[2], T.to_pymbolic(op[3]), op[4])
         elif k == "fail":
             cb.fail_step()
         elif k == "switch":
@@ -64,7 +91,7 @@ def build_phase(ph, as_list=True, fresh=None):
     from dagrt.language import CodeBuilder, ExecutionPhase
     T.set_kw_order(ph)
     with CodeBuilder(name=ph["name"]) as cb:
-        emit_ops(cb, ph["body"], fresh)
+        emit_ops(cb, ph["body"], fresh, ph.get("surface", "expr"))
     if as_list:
         phase = ExecutionPhase(name=ph["name"], next_phase=ph["next"], statements=list(cb.statements))
     else:
